@@ -73,7 +73,7 @@ pub mod strax {
 pub use strax::pat_text;
 pub assume_specification<P: core::str::pattern::Pattern> [str::starts_with::<P>] (s: &str, p: P) -> (r: bool)
     ensures r == pat_text(p).is_prefix_of(s@);
-broadcast use {strax::axiom_str_slice_contains, strax::axiom_pat_text_str};
+broadcast use {strax::axiom_str_slice_contains, strax::axiom_pat_text_str, storax::axiom_bincode_prefix};
 
 // --- errors ---
 #[derive(Debug)]
@@ -82,6 +82,7 @@ pub enum IggyError {
     InvalidJwtAlgorithm(Name),
     Unauthenticated,
     CannotGenerateJwt,
+    CannotSerializeResource,
     Other(u32),
 }
 // http/error.rs: `#[error(transparent)] Error(#[from] IggyError)` (thiserror derives this From)
@@ -210,32 +211,87 @@ pub open spec fn revoked(m: &JwtManager, id: Name) -> bool { m.revoked_tokens@.c
 pub open spec fn mgr_leeway(m: &JwtManager) -> int { (m.validator.clock_skew.secs % 0x1_0000_0000) as int }
 pub open spec fn token_dead(exp: u64, leeway: int, now: u64) -> bool { exp + leeway < now }
 
-// --- the revoked-token file (A-storage) ---
+// --- the revoked-token file (A-storage). TokenStorage::{save_revoked_access_token, delete_revoked_access_tokens} are EXTRACTED;
+// the stubs below are what they stand on: the loader, the persister, bincode ---
 #[verifier::external_body]
-pub struct TokenStorage { x: u8 }
-// v lists exactly the entries of m (it comes out of a map: no id twice)
+#[derive(Debug)]
+pub struct PersisterKind { x: u8 }
+impl PersisterKind {
+    // the bytes of the file at `path` (None: no such file)
+    pub uninterp spec fn content(&self, path: Name) -> Option<Seq<u8>>;
+    // FilePersister / FileWithSyncPersister::overwrite = file::overwrite(path) - OpenOptions create(true).write(true).truncate(FALSE) -
+    // then write_all(bytes): Ok => the file STARTS WITH `bytes` (a longer old file keeps its tail). On Err nothing is known about
+    // this file (a failed write_all leaves it torn). No other file is touched. (R6: the file system through `&mut`.)
+    #[verifier::external_body]
+    pub fn overwrite(&mut self, path: &Name, bytes: &[u8]) -> (r: Result<(), IggyError>)
+        ensures
+            r is Ok ==> (final(self).content(*path) matches Some(b) && bytes@.is_prefix_of(b)),
+            forall|p: Name| p != *path ==> final(self).content(p) == old(self).content(p),
+    { unimplemented!() }
+}
+// bincode 1.3.3 (A-bincode): `serialize(&map)` yields SOME encoding of the map (entries in the map's iteration order, behind a length
+// prefix); `deserialize(bytes)` - `DefaultOptions::new().with_fixint_encoding().allow_trailing_bytes()` - reads the length prefix and
+// that many entries and IGNORES what follows: any byte string that starts with an encoding of m deserialises to m
+pub use storax::{encodes, decoded};
+pub mod storax {
+    use vstd::prelude::*;
+    use super::Name;
+    pub uninterp spec fn encodes(bytes: Seq<u8>, m: Map<Name, u64>) -> bool;
+    pub uninterp spec fn decoded(bytes: Seq<u8>) -> Option<Map<Name, u64>>;
+    #[verifier::external_body]
+    pub broadcast proof fn axiom_bincode_prefix(e: Seq<u8>, m: Map<Name, u64>, b: Seq<u8>)
+        requires #[trigger] encodes(e, m), #[trigger] e.is_prefix_of(b),
+        ensures decoded(b) == Some(m),
+    {}
+}
+pub struct BincodeError { pub p: u8 }
+pub struct AnyhowError { pub p: u8 }
+pub mod bincode {
+    use super::*;
+    #[verifier::external_body]
+    pub fn serialize(map: &HashMap<Name, u64>) -> (r: Result<Vec<u8>, BincodeError>)
+        ensures r matches Ok(bytes) ==> encodes(bytes@, map@),
+    { unimplemented!() }
+}
+// anyhow::Context::with_context(|| text): Ok stays Ok with the same value, Err becomes an anyhow error carrying the text
+pub trait Context<T> { fn with_context<F: FnOnce() -> &'static str>(self, f: F) -> Result<T, AnyhowError>; }
+impl<T, E> Context<T> for Result<T, E> {
+    #[verifier::external_body]
+    fn with_context<F: FnOnce() -> &'static str>(self, f: F) -> (r: Result<T, AnyhowError>)
+        ensures
+            self matches Ok(v) ==> r == Ok::<T, AnyhowError>(v),
+            self is Err ==> r is Err,
+    { unimplemented!() }
+}
+// what the file at `path` holds, read the way load_all_revoked_access_tokens reads it: no file => no entries
+pub open spec fn file_map(content: Option<Seq<u8>>) -> Map<Name, u64> {
+    match content {
+        Some(b) => match decoded(b) { Some(m) => m, None => Map::empty() },
+        None => Map::empty(),
+    }
+}
+// v lists exactly the entries of m
 pub open spec fn lists(v: Seq<RevokedAccessToken>, m: Map<Name, u64>) -> bool {
     &&& forall|i: int| 0 <= i < v.len() ==> m.contains_key(#[trigger] v[i].id) && m[v[i].id] == v[i].expiry
     &&& forall|id: Name| #[trigger] m.contains_key(id) ==> exists|i: int| 0 <= i < v.len() && v[i].id == id
 }
 impl TokenStorage {
-    // what load_all_revoked_access_tokens returns: the deserialised file; empty when there is no file
-    pub uninterp spec fn persisted(&self) -> Map<Name, u64>;
+    pub open spec fn persisted(&self) -> Map<Name, u64> { file_map(self.persister.content(self.path)) }
+    // load_all_revoked_access_tokens (I/O: open, metadata, read_exact, bincode::deserialize, map -> Vec): Ok(v) lists what the file
+    // holds - an empty list when the file cannot be opened ("No revoked access tokens found"), Err when it does not deserialise
     #[verifier::external_body]
     pub fn load_all_revoked_access_tokens(&self) -> (r: Result<Vec<RevokedAccessToken>, IggyError>)
         ensures r matches Ok(v) ==> lists(v@, self.persisted()),
     { unimplemented!() }
-    // load all, insert, serialise, overwrite: Ok only after the whole new map was written; on Err nothing is known about the file
-    #[verifier::external_body]
-    pub fn save_revoked_access_token(&mut self, token: &RevokedAccessToken) -> (r: Result<(), IggyError>)
-        ensures r is Ok ==> final(self).persisted() == old(self).persisted().insert(token.id, token.expiry),
-    { unimplemented!() }
-    // load all, remove the ids, serialise, overwrite (nothing is written when the file holds no entry)
-    #[verifier::external_body]
-    pub fn delete_revoked_access_tokens(&mut self, id: &[Name]) -> (r: Result<(), IggyError>)
-        ensures r is Ok ==> final(self).persisted() == old(self).persisted().remove_keys(id@.to_set()),
-    { unimplemented!() }
 }
+// R8 schema: `tokens.into_iter().map(|token| F(token)).collect::<AHashMap<_, _>>()`: every element's pair goes into the map (a later
+// pair with the same key overwrites an earlier one), nothing else does
+#[verifier::external_body]
+pub fn collect_pairs(v: Vec<RevokedAccessToken>, Ghost(f): Ghost<spec_fn(RevokedAccessToken) -> (Name, u64)>) -> (r: HashMap<Name, u64>)
+    ensures
+        forall|i: int| 0 <= i < v@.len() ==> r@.contains_key(f(#[trigger] v@[i]).0),
+        forall|k: Name| #[trigger] r@.contains_key(k) ==> exists|i: int| 0 <= i < v@.len() && f(v@[i]) == (k, r@[k]),
+{ unimplemented!() }
 // typed view of a Vec<Name> local (`let mut v = Vec::new()` leaves the element type to inference)
 pub open spec fn names_of(v: &Vec<Name>) -> Seq<Name> { v@ }
 // memory and file agree on what the file holds (the file may lag behind memory after a failed save)
